@@ -39,7 +39,7 @@ $N/llvm-profdata merge -sparse $S/prof/*.profraw -o $S/all.profdata
   echo "A measurement of validation density for the hand-written model — not a check, not a proof."
   echo
   echo '```'
-  $N/llvm-cov report $S/target/debug/harness -instr-profile=$S/all.profdata --ignore-filename-regex='vendor|harness/src|rustc|rustlib' 2>/dev/null | sed "s#tmp/cov/repo/##" | cut -c1-60,120-220
+  $N/llvm-cov report $S/target/debug/harness -instr-profile=$S/all.profdata --ignore-filename-regex='vendor|harness/src|rustc|rustlib' 2>/dev/null | sed "s#tmp/cov/repo/src/##" | grep -v "^root/\|^Files which" | sed "s/   */  /g; s/^--*$/---/"
   echo '```'
   echo
   echo "## Lines never executed (outside the Display impls)"
